@@ -38,8 +38,8 @@ WORKER = os.path.join(VERIF, "harness", "c15_worker.py")
 INVARIANTS = ["TypeOK", "LastDefinerWins", "NothingLostNothingInvented", "RepetitionKeepsLast"]
 
 TIERS = {
-    "quick": dict(shapes=["none", "gv", "sv", "gv+gw"], maxlen=3, nseeds=4, slices=3, e3_every=4),
-    "thorough": dict(shapes=["none", "gv", "sv", "gv+sv", "gw", "gv+gw", "sv+gw"], maxlen=3, nseeds=8, slices=2, e3_every=3),
+    "quick": dict(shapes=["none", "gv", "sv", "gv+gw"], maxlen=3, nseeds=4, slices=3, e3_every=4, scope_instance_every=6),
+    "thorough": dict(shapes=["none", "gv", "sv", "gv+sv", "gw", "gv+gw", "sv+gw"], maxlen=3, nseeds=8, slices=2, e3_every=3, scope_instance_every=2),
 }
 KEYS_OF = {"none": [], "gv": ["gv"], "sv": ["sv"], "gv+sv": ["gv", "sv"], "gw": ["gw"], "gv+gw": ["gv", "gw"], "sv+gw": ["sv", "gw"]}
 
@@ -117,8 +117,10 @@ RICH_FLOWIR = {
                                                "environment": "envA"},
          "references": ["input/in.txt:ref", "data/d.txt:ref"], "workflowAttributes": {"replicate": "%(n)s"},
          "variables": {"local": "l", "alpha": "component-alpha"}},
-        {"name": "ba", "stage": 0, "command": {"executable": "cat", "arguments": "gen/out.txt:ref %(alpha)s", "environment": "envB"},
-         "references": ["gen/out.txt:ref"]},
+        {"name": "ba", "stage": 0, "command": {"executable": "cat", "arguments": "gen/out.txt:ref %(alpha)s %(tag)s", "environment": "envB"},
+         "references": ["gen/out.txt:ref"], "variables": {"tag": "%(alpha)s-%(zeta)s-tag", "mine": "m"}},
+        {"name": "solo", "stage": 0, "command": {"executable": "echo", "arguments": "%(label)s %(local)s"},
+         "variables": {"label": "%(greeting)s-%(alpha)s", "local": "solo-local", "zeta": "solo-zeta"}},
         {"name": "a", "stage": 1, "command": {"executable": "cat", "arguments": "stage0.ba/res.txt:output %(extra)s", "environment": "none"},
          "references": ["stage0.ba/res.txt:output", "data/e.txt:copy"]},
         {"name": "agg", "stage": 1, "command": {"executable": "cat", "arguments": "a:ref stage0.gen:ref"},
@@ -235,6 +237,34 @@ def env_cases(vdir):
             for n, (eid, path, order) in enumerate(env_family())]
 
 
+# ---- scoping family (spec/UserVarsScope.tla): component > stage > global, nothing leaks between the components of a stage
+SCOPE_NAMES = ["c1", "c2", "c3"]
+
+
+def scope_doc(c):
+    comps = []
+    for i, name in enumerate(SCOPE_NAMES):
+        variables = {"own%d" % i: "o"}
+        if c["pdef"][i] == "literal":
+            variables["prefix"] = name
+        elif c["pdef"][i] == "viaglobal":
+            variables["prefix"] = "%(root)s-" + name
+        args = "%(prefix)s"
+        if c["ldef"][i] == "ref":
+            variables["label"] = "%(prefix)s-x"
+            args += " %(label)s"
+        comps.append({"name": name, "stage": 0, "command": {"executable": "echo", "arguments": args}, "variables": variables})
+    comps.append({"name": "later", "stage": 1, "command": {"executable": "echo", "arguments": "%(prefix)s"}, "references": ["stage0.c1:ref"]})
+    doc = {"variables": {"default": {"global": {"root": "R", "prefix": "g"}}}, "components": comps}
+    if c["stage"]:
+        doc["variables"]["default"]["stages"] = {0: {"prefix": "s"}}
+    return doc
+
+
+def scope_id(c):
+    return "scope:%s:%s:%s" % (",".join(c["pdef"]), ",".join(c["ldef"]), "stage" if c["stage"] else "nostage")
+
+
 def write_variant(vdir, k, t):
     """everything the processes of variant k read; the same documents for every k, keys ordered differently"""
     rng = random.Random(verif_seed() * 1000 + k)
@@ -298,14 +328,15 @@ def case_id(c):
     return "uv:%s:%s" % (",".join(c["shape"]), "".join(str(x) for x in c["order"]))
 
 
-def run_processes(chk, t, cases, seeds, with_rich=True):
+def run_processes(chk, t, cases, seeds, with_rich=True, scope_cases=()):
     """-> {seed: {case id: dump}}"""
     jobs = []
     import shutil
     for k, s in enumerate(seeds):
         vdir0 = os.path.join(chk.scratch, "variant%d" % k)
         write_variant(vdir0, k, t)
-        nsl = max(1, min(t["slices"], len(cases)))
+        nsl = max(1, min(t["slices"], max(len(cases), len(scope_cases))))
+        srng = random.Random(verif_seed() * 1000003 + k)
         for j in range(nsl):
             # every worker process gets its own copy of the variant (package directories included): loading a package writes
             # instance files into its conf directory, so processes sharing one package directory would disturb each other
@@ -322,6 +353,10 @@ def run_processes(chk, t, cases, seeds, with_rich=True):
                              "variable_files": [os.path.relpath(var_path(vdir, f, c["shape"][f - 1]), vdir) for f in c["order"]],
                              "instantiate": c.get("instantiate", False)})
             extra = (rich_cases(vdir) + env_cases(vdir)) if (with_rich and j == 0) else []
+            for c in list(scope_cases)[j::nsl]:
+                doc = scope_doc(c)
+                mine.append({"id": scope_id(c), "kind": "scope", "names": SCOPE_NAMES, "instantiate": c.get("instantiate", False),
+                             "doc_yaml": yaml.safe_dump(shuffled(doc, srng) if k else doc, sort_keys=False)})
             part = mine + extra
             job = {"scratch": os.path.join(chk.scratch, "w%d_%d" % (k, j)), "cwd": vdir, "listing_seed": verif_seed() * 7919 + 31 * k + j + 1, "cases": part}
             jp = os.path.join(chk.scratch, "job_%d_%d.json" % (k, j))
@@ -468,6 +503,49 @@ def judge_rich(chk, seeds, result, ids):
         chk.sample({"rich": rid, "nodes": ref["nodes"], "memoization": {n: c["memoization"] for n, c in ref["components"].items()}}, limit=5)
 
 
+def judge_scope(chk, scope_cases, seeds, result):
+    for c in scope_cases:
+        sid = scope_id(c)
+        replay = {"scope": c, "seeds": seeds}
+        per_seed = {s: result[s].get(sid) for s in seeds}
+        if any(v is None for v in per_seed.values()):
+            raise MachineryError("scope case %s missing from a worker's output" % sid)
+        chk.evaluated(("scope", sid))
+        reported = False
+        for e in ("memory", "instance"):
+            if not all(e in per_seed[s] for s in seeds):
+                continue
+            for s in seeds:
+                got = per_seed[s][e]
+                if "exception" in got:
+                    chk.violation("scope:%s:exception:%s" % (e, got["exception"]), "%s raised %s: %s" % (sid, got["exception"], got["text"]), replay)
+                    reported = True
+                    break
+                bad = []
+                for i, name in enumerate(SCOPE_NAMES):
+                    exp = c["expected"][i]
+                    have = got[name]
+                    want = {"line": exp["line"], "prefix": exp["prefix"]}
+                    if c["ldef"][i] == "ref":
+                        want["label"] = exp["label"]
+                    seen = {k: have.get(k) for k in want}
+                    if seen != want:
+                        cls = ("own-prefix" if c["pdef"][i] != "absent" else "inherits-stage" if c["stage"] else "inherits-global") + \
+                              ("+label" if c["ldef"][i] == "ref" else "")
+                        bad.append((cls, "%s: %r, specified %r" % (name, seen, want)))
+                if bad:
+                    chk.violation("scope:%s:%s" % (e, bad[0][0]),
+                                  "prefix defined %s (stage: %s), label %s; PYTHONHASHSEED=%s: %s" % (
+                                      c["pdef"], c["stage"], c["ldef"], s, "; ".join(b[1] for b in bad)), replay)
+                    reported = True
+                    break
+        if not reported and len({json.dumps(per_seed[s], sort_keys=True) for s in seeds}) > 1:
+            chk.violation("nondeterministic:scope", "%s: dumps differ between processes: %s" % (sid, per_seed), replay)
+    if scope_cases:
+        c = scope_cases[len(scope_cases) // 2]
+        chk.sample({"scope case": scope_id(c), "expected": c["expected"], "observed": result[seeds[0]].get(scope_id(c))}, limit=7)
+
+
 def judge_env(chk, seeds, result):
     """every key order of every mapping, in every process: one and the same resolved environments"""
     fam = env_family()
@@ -508,6 +586,37 @@ def describe_diff(a, b, paths):
     return "; ".join(out)
 
 
+def scope_family(chk, gen, tier, t):
+    """TLC on spec/UserVarsScope.tla: invariants over every visiting order; -> the emitted cases"""
+    def cfg(name, emit, invs):
+        path = os.path.join(gen, "UserVarsScope_%s_%s.cfg" % (name, tier))
+        body = 'CONSTANTS\n  PrefixShapes = {"absent", "literal", "viaglobal"}\n  LabelShapes = {"absent", "ref"}\n  Emit = %s\nSPECIFICATION Spec\n' % (
+            "TRUE" if emit else "FALSE")
+        body += "".join("INVARIANT %s\n" % i for i in invs) + "CHECK_DEADLOCK FALSE\n"
+        tmp = "%s.%d.tmp" % (path, os.getpid())
+        with open(tmp, "w") as f:
+            f.write(body)
+        os.replace(tmp, path)
+        return path
+    r = tlc.run_tlc("UserVarsScope", cfg("mc", False, ["TypeOK", "Scoping", "NoLeak", "OrderFree"]), workers=8, timeout=600, coverage=True)
+    if not r["ok"]:
+        raise MachineryError("UserVarsScope.tla: %s fails on the model:\n%s" % (r["violated"], r["out"][-3000:]))
+    if not r["coverage"].get("Visit"):
+        raise MachineryError("action Visit of UserVarsScope.tla never taken: %s" % r["coverage"])
+    chk.add_tlc(r)
+    rw = tlc.run_tlc("UserVarsScope", cfg("witness", False, ["AlwaysOwn"]), workers=4, timeout=600, expect_violation=True)
+    if rw["violated"] != "AlwaysOwn":
+        raise MachineryError("vacuity guard: no component of UserVarsScope.tla inherits a variable (%s)" % rw["violated"])
+    r2 = tlc.run_tlc("UserVarsScope", cfg("emit", True, ["EmitCase"]), workers=1, timeout=600)
+    cases = r2["cases"]
+    if len(cases) != 6 ** 3 * 2:
+        raise MachineryError("UserVarsScope.tla emitted %d cases, expected %d" % (len(cases), 6 ** 3 * 2))
+    cases.sort(key=scope_id)
+    for n, c in enumerate(cases):
+        c["instantiate"] = (n % t["scope_instance_every"] == 0)
+    return cases
+
+
 def run(tier):
     chk = Check(PID, tier)
     gen = os.path.join(SPEC, "gen")
@@ -542,12 +651,15 @@ def run(tier):
             c["instantiate"] = (nsens % t["e3_every"] == 0)
     if nsens < 100:
         raise MachineryError("only %d order-sensitive cases" % nsens)
+    scope_cases = scope_family(chk, gen, tier, t)
     seeds = hash_seeds(t["nseeds"])
-    result = run_processes(chk, t, cases, seeds)
+    result = run_processes(chk, t, cases, seeds, scope_cases=scope_cases)
     index = {(tuple(c["shape"]), tuple(c["order"])): c["expected"] for c in cases}
     judge(chk, cases, seeds, result, index)
     judge_rich(chk, seeds, result, [c["id"] for c in rich_cases("x")])
     judge_env(chk, seeds, result)
+    judge_scope(chk, scope_cases, seeds, result)
+    chk.cov["scope_family"] = len(scope_cases)
     chk.cov["env_family"] = len(env_family())
     chk.cov["rule"] = ("user-variable family: every assignment of %d shapes to the files of the list x every list of length <= %d over the files (repetitions "
                        "included), each loaded through 2-3 entry points in %d processes (PYTHONHASHSEED %s), variants of the documents with shuffled "
@@ -579,7 +691,12 @@ def replay(path):
         judge(chk, [c], rp["seeds"], result, index)
     else:
         result = run_processes(chk, t, [], rp["seeds"], with_rich=True)
-        if "envfamily" in rp:
+        if "scope" in rp:
+            c = rp["scope"]
+            c["instantiate"] = True
+            result = run_processes(chk, t, [], rp["seeds"], with_rich=False, scope_cases=[c])
+            judge_scope(chk, [c], rp["seeds"], result)
+        elif "envfamily" in rp:
             judge_env(chk, rp["seeds"], result)
         else:
             judge_rich(chk, rp["seeds"], result, [rp["rich"]])
